@@ -3,11 +3,13 @@
   `verify_iff`: from ANY allocated parser object (whatever it held before), init followed by
   verify returns true exactly for the byte strings that are the canonical encoding of a
   well-formed value of the right root kind within the depth limits.
-  The statement about the MAX_DEPTH error code is not yet a theorem (correspondence run and the
-  `firstObstacle` oracle decide it; see MANIFEST level note).
+  `c02_depth_code`: a document that is well-formed except that it nests too deep for this parser
+  is rejected with exactly the error code of the FIRST nesting obstacle in byte order
+  (`firstObstacle`, Spec/Decode.lean); `c02_fits_or_obstacle` shows the case split is exhaustive.
 -/
 import Binson.Lemmas.VerifyValid
 import Binson.Lemmas.VerifySound
+import Binson.Lemmas.DepthCode
 import Binson.Lemmas.DecodeRef
 namespace Binson
 
@@ -19,6 +21,22 @@ theorem c02_verify_iff (g : Parser) (ha : Alloc g) (hmd : g.maxDepth ≤ 255) (b
     ((init g buf (rootNum root)).2 = true ∧ (verify (init g buf (rootNum root)).1).2.1 = true) ↔
     ∃ v, wfDoc root g.maxDepth v = true ∧ encode v = buf.toList :=
   verify_iff g ha hmd buf hsz root
+
+/-- C02, last sentence: when nesting is the first obstacle met, the error code is the matching
+    MAX_DEPTH_OBJECT / MAX_DEPTH_ARRAY (`b = true`: object depth). -/
+theorem c02_depth_code (g : Parser) (ha : Alloc g) (hmd : g.maxDepth ≤ 255) (root : Root) (v : Value)
+    (hwfv : wfValue v = true) (hrk : rootKindOk root v = true) (hsz : (encode v).length < 2 ^ 63) (b : Bool)
+    (hob : firstObstacle (match root with | .object => g.maxDepth | .array => g.maxDepth - 1) 255 v = some b) :
+    (init g (encode v).toArray (rootNum root)).2 = true ∧
+    (verify (init g (encode v).toArray (rootNum root)).1).2.1 = false ∧
+    (verify (init g (encode v).toArray (rootNum root)).1).1.err = (if b then Err.maxDepthObject else Err.maxDepthArray) :=
+  verify_depth_code g ha hmd root v hwfv hrk hsz b hob
+
+/-- every well-formed value of the right root kind either fits (and is accepted, `c02_verify_iff`)
+    or has a first nesting obstacle (and gets its code, `c02_depth_code`) -/
+theorem c02_fits_or_obstacle (root : Root) (md : Nat) (v : Value) (hwfv : wfValue v = true) (hrk : rootKindOk root v = true) :
+    wfDoc root md v = true ∨ ∃ b, firstObstacle (match root with | .object => md | .array => md - 1) 255 v = some b :=
+  wfDoc_or_firstObstacle root md v hwfv hrk
 
 /-- ⇐ of `verify_iff`: init then verify accept the canonical encoding of every well-formed value
     of the right root kind within the depth limits -/
